@@ -166,6 +166,20 @@ func Build() *schemabuilder.Schema {
 	sh.BatchFieldFunc("mBatchMissing", func(ctx context.Context, m map[batch.Index]*Shapes) (map[batch.Index]*Leaf, error) {
 		return map[batch.Index]*Leaf{}, nil // no entry for anybody
 	})
+	// batch results with no entry for a source, for scalar kinds whose Go type is a slice or a value
+	sh.BatchFieldFunc("mBatchBytesMissing", func(m map[batch.Index]*Shapes) map[batch.Index][]byte {
+		return map[batch.Index][]byte{}
+	})
+	sh.BatchFieldFunc("mBatchStringMissing", func(m map[batch.Index]*Shapes) map[batch.Index]string {
+		return map[batch.Index]string{}
+	})
+	sh.BatchFieldFunc("mBatchBytes", func(m map[batch.Index]*Shapes) map[batch.Index][]byte {
+		out := map[batch.Index][]byte{}
+		for i := range m {
+			out[i] = []byte("bb")
+		}
+		return out
+	})
 	sh.BatchFieldFunc("mBatchScalar", func(m map[batch.Index]*Shapes) map[batch.Index]string {
 		out := map[batch.Index]string{}
 		for i := range m {
